@@ -5,6 +5,14 @@ import json
 ALL = [f"C{i:02d}" for i in range(1, 20)]
 
 CHECKS = {
+    "C02": dict(
+        category="exploration", engine="E1+G-xsd", design_ref="DESIGN.md 2.5 (G-xsd), 3/C02",
+        technique="bounded-exhaustive enumeration of generated schemas x generator options x schema-derived instance documents, with libxml2 as independent validator and infoset oracle",
+        text=("Every G-xsd schema (base + <= 1 (thorough 2) of 39 features) is rendered, fed to the real generator under 8 (thorough 16) option sets; the generated package must import and bind; every "
+              "instance document the schema's own AST yields within the unrolling / deviation bound is first validated by libxml2, must parse under the strictest parser settings, and its "
+              "re-serialization must have the same infoset after typed normalisation and schema-prescribed defaults (ordered, and schema-valid again, where the property demands order). The same "
+              "expectations are applied under every option set, so accepted documents and produced infosets cannot depend on output-only options."),
+        note="stand-ins for jinja2/toposort/ruff/click; XSD 1.1-only constructs and facets xsdata does not enforce are outside the generated fragment; two open known findings"),
     "C12": dict(
         category="model_checking", engine="E4+E1", design_ref="DESIGN.md 2.4, 3/C12",
         technique="exhaustive exploration of the environment's answers (set-iteration order at every reached site, id() direction) within a deviation bound, on the real generator loaded through an owning AST transform; plus bounded real hash-seed sweep and route comparison",
